@@ -1,5 +1,6 @@
 import HC.Proofs.Sync
 import HC.Proofs.ApplyTotal
+import HC.Proofs.UpgradeBytes
 /-!
 The replica at core level (C03, "replicas converge to the writer's data"): applying the writer's honest
 answers with `verify_and_apply_proof` writes every block at the byte offset it has in the writer's log, so
@@ -13,7 +14,7 @@ what the replica holds reads back byte-identical.
   every committed honest answer.
 -/
 namespace HC.Replica
-open HC HC.Codec HC.Flat HC.Tree HC.RefTree HC.RefProof HC.Sound HC.Offsets HC.TreeStore HC.Complete HC.UpgradeSound HC.CreateTotal
+open HC HC.Codec HC.Flat HC.Tree HC.RefTree HC.RefProof HC.Sound HC.Offsets HC.TreeStore HC.Complete HC.UpgradeSound HC.CreateTotal HC.Oplog
 
 /-- nodes recorded by the climb of `k` levels from `(d, o)`, newest first -/
 def upPath (C : Crypto) (bs : Array Bytes) : Nat → Nat → Nat → List Node
@@ -527,6 +528,29 @@ theorem insert_lookup (C : Crypto) (hC : HashWF C) (bs : Array Bytes) (t t' : Tr
 
 theorem sib_sib (o : Nat) : sib (sib o) = o := by unfold sib; split <;> split <;> omega
 
+theorem blockNodes_mem (C : Crypto) (bs : Array Bytes) (i k : Nat) (n : Node) :
+    n ∈ (nodeAt C bs 0 i :: downPath C bs 0 i k) ↔ n = nodeAt C bs 0 i ∨ n ∈ upPath C bs 0 i k := by
+  rw [← upPath_reverse]
+  simp
+
+theorem blockNodes_bound (C : Crypto) (bs : Array Bytes) (i k : Nat) (hin : (i / 2 ^ k + 1) * 2 ^ k ≤ bs.size) :
+    ∀ n ∈ (nodeAt C bs 0 i :: downPath C bs 0 i k), ∃ d o, n = nodeAt C bs d o ∧ (o + 1) * 2 ^ d ≤ bs.size := by
+  intro n hn
+  rcases (blockNodes_mem C bs i k n).mp hn with rfl | hn
+  · exact ⟨0, i, rfl, Nat.le_trans (by have := span_le i 0 k; simpa using this) hin⟩
+  · obtain ⟨j, hj, hc⟩ := (mem_upPath C bs n k 0 i).mp hn
+    have hk : i / 2 ^ (j + 1) / 2 ^ (k - (j + 1)) = i / 2 ^ k := by
+      rw [Nat.div_div_eq_div_mul, ← Nat.pow_add]; congr 2; omega
+    have hsp := span_le (i / 2 ^ (j + 1)) (j + 1) (k - (j + 1))
+    rw [hk, show j + 1 + (k - (j + 1)) = k by omega] at hsp
+    rcases hc with rfl | rfl
+    · exact ⟨0 + j + 1, _, rfl, by simp only [Nat.zero_add]; exact Nat.le_trans hsp hin⟩
+    · refine ⟨0 + j, _, rfl, ?_⟩
+      simp only [Nat.zero_add]
+      have := sib_bound (i / 2 ^ j) j
+      rw [div_pow_succ' i j] at this
+      exact Nat.le_trans this (Nat.le_trans hsp hin)
+
 /-- committing an accepted block answer keeps the replica closed and stores the block's leaf -/
 theorem block_commit_closed (C : Crypto) (hC : HashWF C) (bs : Array Bytes) (t : Tree) (f : File) (h : Closed C bs t f)
     (i k : Nat) (hstored : t.node? f (Flat.index k (i / 2 ^ k)) = some (nodeAt C bs k (i / 2 ^ k)))
@@ -535,26 +559,8 @@ theorem block_commit_closed (C : Crypto) (hC : HashWF C) (bs : Array Bytes) (t :
     (hlen : t'.length = t.length) :
     Closed C bs t' f ∧ t'.node? f (Flat.index 0 i) = some (nodeAt C bs 0 i)
       ∧ (∀ d o, t.node? f (Flat.index d o) = some (nodeAt C bs d o) → t'.node? f (Flat.index d o) = some (nodeAt C bs d o)) := by
-  have hmem : ∀ n, n ∈ (nodeAt C bs 0 i :: downPath C bs 0 i k) ↔ n = nodeAt C bs 0 i ∨ n ∈ upPath C bs 0 i k := by
-    intro n
-    rw [← upPath_reverse]
-    simp
-  have hbound : ∀ n ∈ (nodeAt C bs 0 i :: downPath C bs 0 i k), ∃ d o, n = nodeAt C bs d o ∧ (o + 1) * 2 ^ d ≤ bs.size := by
-    intro n hn
-    rcases (hmem n).mp hn with rfl | hn
-    · exact ⟨0, i, rfl, Nat.le_trans (by have := span_le i 0 k; simpa using this) hin⟩
-    · obtain ⟨j, hj, hc⟩ := (mem_upPath C bs n k 0 i).mp hn
-      have hk : i / 2 ^ (j + 1) / 2 ^ (k - (j + 1)) = i / 2 ^ k := by
-        rw [Nat.div_div_eq_div_mul, ← Nat.pow_add]; congr 2; omega
-      have hsp := span_le (i / 2 ^ (j + 1)) (j + 1) (k - (j + 1))
-      rw [hk, show j + 1 + (k - (j + 1)) = k by omega] at hsp
-      rcases hc with rfl | rfl
-      · exact ⟨0 + j + 1, _, rfl, by simp only [Nat.zero_add]; exact Nat.le_trans hsp hin⟩
-      · refine ⟨0 + j, _, rfl, ?_⟩
-        simp only [Nat.zero_add]
-        have := sib_bound (i / 2 ^ j) j
-        rw [div_pow_succ' i j] at this
-        exact Nat.le_trans this (Nat.le_trans hsp hin)
+  have hmem := blockNodes_mem C bs i k
+  have hbound := blockNodes_bound C bs i k hin
   obtain ⟨hnew, hold, honly⟩ := insert_lookup C hC bs t t' f _ (fun n hn => by obtain ⟨d, o, e, _⟩ := hbound n hn; exact ⟨d, o, e⟩) hu
   have hS : Sparse C bs bs.size t' f := by
     refine Sync.sparse_insert C hC bs bs.size bs.size t t' f h.sparse (Nat.le_refl _) _ hbound hu (by rw [hlen]; exact h.sparse.length)
@@ -786,5 +792,392 @@ theorem flush_lookup (t : Tree) (f : File) (hwf : MapWF t.unflushed) (hal : f.si
           rw [hN] at this
           rw [this]; exact hz k hk
         simp [hb]
+
+/-! ### the replica at core level -/
+
+/-- representation invariant of a replica that has upgraded to the writer's log `bs` and holds the blocks `held` -/
+structure RepR (C : Crypto) (bs : Array Bytes) (c : Core) (d : Disk) (held : Nat → Bool) : Prop where
+  closed : Closed C bs c.tree d.tree
+  roots : c.tree.roots = RefTree.roots C bs
+  bytes : c.tree.byteLength = psum bs bs.size
+  mapwf : MapWF c.tree.unflushed
+  aligned : d.tree.size % 40 = 0
+  bits : ∀ i, c.bitfield.get i = held i
+  heldLt : ∀ i, held i = true → i < bs.size
+  leaf : ∀ i, held i = true → c.tree.node? d.tree (Flat.index 0 i) = some (nodeAt C bs 0 i)
+  data : ∀ i, held i = true → ∀ k, k < sz bs i →
+    psum bs i + k < d.data.size ∧ d.data.byte (psum bs i + k) = (bs.getD i []).getD k 0
+  contig : Core.FirstMissing c.bitfield c.header.contiguous
+  small : bs.size < 2 ^ 64 ∧ psum bs bs.size < 2 ^ 64
+
+/-- **what the replica holds reads back byte-identical** -/
+theorem get_held (C : Crypto) (bs : Array Bytes) (c : Core) (d : Disk) (held : Nat → Bool) (h : RepR C bs c d held) (i : Nat)
+    (hi : held i = true) : (c.getBlock d i).result = .ok (some (bs.getD i [])) := by
+  have hb := h.bits i
+  have hlt := h.heldLt i hi
+  have hr := byteRange_closed C bs c.tree d.tree h.closed h.small.1 h.roots i hlt (h.leaf i hi)
+  unfold Core.getBlock
+  simp only [hb, hi, Bool.not_true, Bool.false_eq_true, ite_false, hr]
+  by_cases hz : sz bs i = 0
+  · have : bs.getD i [] = [] := List.eq_nil_of_length_eq_zero hz
+    simp [hz, this]
+  · have hd := h.data i hi
+    have hread : d.data.read (psum bs i) (sz bs i) = some (bs.getD i []) := by
+      apply File.read_of_bytes d.data (psum bs i) (bs.getD i [])
+      · have := (hd (sz bs i - 1) (by omega)).1
+        simp only [sz] at this ⊢
+        omega
+      · intro k hk
+        exact (hd k hk).2
+    simp only [hz, ite_false, hread]
+
+/-- and what it does not hold is not served -/
+theorem get_missing (C : Crypto) (bs : Array Bytes) (c : Core) (d : Disk) (held : Nat → Bool) (h : RepR C bs c d held) (i : Nat)
+    (hi : held i = false) : (c.getBlock d i).result = .ok none := by
+  unfold Core.getBlock
+  simp [h.bits i, hi]
+
+theorem closed_congr (C : Crypto) (bs : Array Bytes) (t t' : Tree) (f f' : File) (h : Closed C bs t f)
+    (hn : ∀ i, t'.node? f' i = t.node? f i) (hl : t'.length = t.length) : Closed C bs t' f' := by
+  refine ⟨⟨by rw [hl]; exact h.sparse.length, fun i n hi => h.sparse.sound i n (by rw [← hn]; exact hi),
+    fun p hp => by rw [hn]; exact h.sparse.roots p hp⟩, fun d o hst hpar => ?_⟩
+  rw [hn] at hst
+  have := h.closed d o hst hpar
+  rw [hn, hn]; exact this
+
+/-- the periodic flush keeps the invariant -/
+theorem maybeFlush_repr (C : Crypto) (bs : Array Bytes) (c : Core) (d : Disk) (held : Nat → Bool) (h : RepR C bs c d held) :
+    RepR C bs c.maybeFlush.1 (d.applyAll c.maybeFlush.2) held := by
+  rw [LiveRefine.maybeFlush_eq]
+  split
+  · simp only [Core.flushAll]
+    obtain ⟨L, hfl, hlook, hal⟩ := flush_lookup c.tree d.tree h.mapwf h.aligned
+    have e1 : d.applyAll (c.bitfield.flush.2 ++ c.tree.flush.2 ++ (Oplog.flush c.oplog c.header false).2)
+        = ((d.applyAll c.bitfield.flush.2).applyAll c.tree.flush.2).applyAll (Oplog.flush c.oplog c.header false).2 := by
+      rw [Journal.applyAll_append, Journal.applyAll_append]
+    have htree : (d.applyAll (c.bitfield.flush.2 ++ c.tree.flush.2 ++ (Oplog.flush c.oplog c.header false).2)).tree = writeSlots d.tree L := by
+      rw [e1, LiveRefine.tree_of_applyAll _ _ (fun op hop => by rw [Journal.oplogFlush_store _ _ _ op hop]; decide), hfl]
+      simp only []
+      rw [applyAll_tree_writes]
+      simp only []
+      rw [LiveRefine.tree_of_applyAll _ _ (fun op hop => by rw [Journal.bitfieldFlush_store _ op hop]; decide)]
+    have hdata : (d.applyAll (c.bitfield.flush.2 ++ c.tree.flush.2 ++ (Oplog.flush c.oplog c.header false).2)).data = d.data := by
+      rw [e1, LiveRefine.data_of_applyAll _ _ (fun op hop => by rw [Journal.oplogFlush_store _ _ _ op hop]; decide), hfl]
+      simp only []
+      rw [applyAll_tree_writes]
+      simp only []
+      rw [LiveRefine.data_of_applyAll _ _ (fun op hop => by rw [Journal.bitfieldFlush_store _ op hop]; decide)]
+    have htf : c.tree.flush.1 = { c.tree with unflushed := {} } := by rw [hfl]
+    refine ⟨?_, ?_, ?_, ?_, ?_, ?_, h.heldLt, ?_, ?_, ?_, h.small⟩
+    · show Closed C bs c.tree.flush.1 _
+      rw [htf, htree]
+      exact closed_congr C bs c.tree _ d.tree _ h.closed hlook rfl
+    · show c.tree.flush.1.roots = _
+      rw [htf]; exact h.roots
+    · show c.tree.flush.1.byteLength = _
+      rw [htf]; exact h.bytes
+    · show MapWF c.tree.flush.1.unflushed
+      rw [htf]; intro k n hk; simp at hk
+    · rw [htree]; exact hal
+    · intro i
+      show c.bitfield.flush.1.get i = held i
+      rw [← h.bits i]; simp [Bitfield.flush, Bitfield.get]
+    · intro i hi
+      show c.tree.flush.1.node? _ _ = _
+      rw [htf, htree, hlook]; exact h.leaf i hi
+    · intro i hi k hk
+      rw [hdata]; exact h.data i hi k hk
+    · have := h.contig
+      unfold Core.FirstMissing at this ⊢
+      have hb : ∀ i, c.bitfield.flush.1.get i = c.bitfield.get i := fun i => by simp [Bitfield.flush, Bitfield.get]
+      exact ⟨fun i hi => by show c.bitfield.flush.1.get i = true; rw [hb]; exact this.1 i hi,
+        by show c.bitfield.flush.1.get _ = false; rw [hb]; exact this.2⟩
+  · simp only [Disk.applyAll, List.foldl_nil]
+    exact ⟨h.closed, h.roots, h.bytes, h.mapwf, h.aligned, h.bits, h.heldLt, h.leaf, h.data, h.contig, h.small⟩
+
+/-- the honest answer to "block `i`, as many nodes as I am missing" -/
+def honestBlock (C : Crypto) (bs : Array Bytes) (c : Core) (d : Disk) (i : Nat) : Proof :=
+  ⟨c.tree.fork, some ⟨i, bs.getD i [], sibPath C bs 0 i (c.tree.missingNodes d.tree (2 * i))⟩, none, none, none⟩
+
+/-- the state after the entry has been logged and the tree committed, before the periodic flush -/
+def afterBlock (C : Crypto) (bs : Array Bytes) (c : Core) (d : Disk) (i : Nat) : Core :=
+  let k := c.tree.missingNodes d.tree (2 * i)
+  let nodes := nodeAt C bs 0 i :: downPath C bs 0 i k
+  let entry : Entry := { treeNodes := nodes, treeUpgrade := none, bitfield := some ⟨false, i, 1⟩ }
+  let bf := c.bitfield.setRange i 1 true
+  { c with oplog := (Oplog.appendEntry c.oplog entry).1, header := Core.updateContiguous c.header bf ⟨false, i, 1⟩, bitfield := bf, tree := { c.tree with unflushed := insertAll c.tree.unflushed nodes } }
+
+def blockJournal (C : Crypto) (bs : Array Bytes) (c : Core) (d : Disk) (i : Nat) : List SOp :=
+  let k := c.tree.missingNodes d.tree (2 * i)
+  let nodes := nodeAt C bs 0 i :: downPath C bs 0 i k
+  let entry : Entry := { treeNodes := nodes, treeUpgrade := none, bitfield := some ⟨false, i, 1⟩ }
+  [.write .data (psum bs i) (bs.getD i [])] ++ (Oplog.appendEntry c.oplog entry).2
+
+/-- what `verify_and_apply_proof` does with the honest block answer -/
+theorem apply_block_shape (C : Crypto) (bs : Array Bytes) (c : Core) (d : Disk) (held : Nat → Bool) (h : RepR C bs c d held)
+    (i : Nat) (hi : i < bs.size) :
+    c.verifyAndApply C d (honestBlock C bs c d i)
+      = { core := (afterBlock C bs c d i).maybeFlush.1, result := .ok true,
+          journal := blockJournal C bs c d i ++ (afterBlock C bs c d i).maybeFlush.2,
+          events := Core.appliedEvents (honestBlock C bs c d i) (some ⟨false, i, 1⟩) } := by
+  obtain ⟨hstored, hin⟩ := missingNodes_spec C bs bs.size c.tree d.tree h.closed.sparse h.small.1 i hi
+  have hv := block_changeset_exact C bs c.tree d.tree c.publicKey i (c.tree.missingNodes d.tree (2 * i)) c.tree.fork hstored
+  generalize hk : c.tree.missingNodes d.tree (2 * i) = k at hstored hin hv
+  generalize hcs : ({ c.tree.changeset with rnodes := upPath C bs 0 i k ++ [nodeAt C bs 0 i] } : Changeset) = cs at hv
+  have hup : cs.upgraded = false := by rw [← hcs]; rfl
+  have hnodes : cs.nodes = nodeAt C bs 0 i :: downPath C bs 0 i k := by rw [← hcs]; simp [Changeset.nodes, upPath_reverse]
+  have hcmt : c.tree.commitable cs = true := by rw [← hcs]; simp [Tree.commitable, Tree.changeset]
+  have hoff := byteOffsetInChangeset_honest C bs c.tree d.tree h.closed h.small.1 h.roots i k hi hstored hin
+  rw [hcs] at hoff
+  have hds : Core.dataStep c d (honestBlock C bs c d i) cs = .ok ([.write .data (psum bs i) (bs.getD i [])], some ⟨false, i, 1⟩) := by
+    simp [Core.dataStep, honestBlock, hoff]
+  have hcommit : c.tree.commit cs = .ok { c.tree with unflushed := insertAll c.tree.unflushed (nodeAt C bs 0 i :: downPath C bs 0 i k) } := by
+    simp only [Tree.commit, hcmt, hup, Bool.not_true, Bool.false_eq_true, ite_false, Bool.false_and, hnodes, insertAll]
+  have hp : (honestBlock C bs c d i).fork = c.tree.fork := rfl
+  have hvv : verifyProof C c.tree d.tree (honestBlock C bs c d i) c.publicKey = .ok cs := by
+    simp only [honestBlock, hk]; exact hv
+  unfold Core.verifyAndApply
+  simp only [hp, ne_eq, not_true_eq_false, ite_false, hvv, hcmt, Bool.not_true, Bool.false_eq_true, hds]
+  unfold Core.applyVerified
+  simp only [Core.entryOf, hup, Bool.false_eq_true, ite_false, hcommit, Core.finishApply, hnodes]
+  simp only [afterBlock, blockJournal, hk]
+
+theorem psum_succ_le (bs : Array Bytes) {i j : Nat} (h : i < j) : psum bs i + sz bs i ≤ psum bs j := by
+  have : psum bs (i + 1) = psum bs i + sz bs i := rfl
+  rw [← this]; exact psum_mono bs h
+
+/-- the invariant after the entry is logged and the tree committed: the block is held -/
+theorem afterBlock_repr (C : Crypto) (hC : HashWF C) (bs : Array Bytes) (c : Core) (d : Disk) (held : Nat → Bool) (h : RepR C bs c d held)
+    (i : Nat) (hi : i < bs.size) :
+    RepR C bs (afterBlock C bs c d i) (d.applyAll (blockJournal C bs c d i)) (fun j => held j || j == i) := by
+  obtain ⟨hstored, hin⟩ := missingNodes_spec C bs bs.size c.tree d.tree h.closed.sparse h.small.1 i hi
+  generalize hk : c.tree.missingNodes d.tree (2 * i) = k at hstored hin
+  -- the stores after the journal
+  have hj : blockJournal C bs c d i = [.write .data (psum bs i) (bs.getD i [])]
+      ++ (Oplog.appendEntry c.oplog { treeNodes := nodeAt C bs 0 i :: downPath C bs 0 i k, treeUpgrade := none, bitfield := some ⟨false, i, 1⟩ }).2 := by
+    simp only [blockJournal, hk]
+  have htree : (d.applyAll (blockJournal C bs c d i)).tree = d.tree := by
+    rw [hj]
+    apply LiveRefine.tree_of_applyAll
+    intro op hop
+    rcases List.mem_append.mp hop with h1 | h1
+    · simp at h1; subst h1; simp [SOp.store]
+    · rw [Journal.appendEntry_store _ _ op h1]; decide
+  have hdata : (d.applyAll (blockJournal C bs c d i)).data = d.data.write (psum bs i) (bs.getD i []) := by
+    rw [hj, Journal.applyAll_append]
+    rw [LiveRefine.data_of_applyAll _ _ (fun op hop => by rw [Journal.appendEntry_store _ _ op hop]; decide)]
+    simp [Disk.applyAll, Disk.apply, Disk.set, Disk.get]
+  have htr : (afterBlock C bs c d i).tree = { c.tree with unflushed := insertAll c.tree.unflushed (nodeAt C bs 0 i :: downPath C bs 0 i k) } := by
+    simp only [afterBlock, hk]
+  have hbf : (afterBlock C bs c d i).bitfield = c.bitfield.setRange i 1 true := rfl
+  have hhd : (afterBlock C bs c d i).header = Core.updateContiguous c.header (c.bitfield.setRange i 1 true) ⟨false, i, 1⟩ := rfl
+  obtain ⟨hcl, hleaf, hold⟩ := block_commit_closed C hC bs c.tree d.tree h.closed i k hstored hin
+    { c.tree with unflushed := insertAll c.tree.unflushed (nodeAt C bs 0 i :: downPath C bs 0 i k) } rfl rfl
+  refine ⟨?_, ?_, ?_, ?_, ?_, ?_, ?_, ?_, ?_, ?_, h.small⟩
+  · rw [htr, htree]; exact hcl
+  · rw [htr]; exact h.roots
+  · rw [htr]; exact h.bytes
+  · rw [htr]
+    apply mapWF_insertAll _ _ h.mapwf
+    intro n hn
+    obtain ⟨dd, o, rfl, hb⟩ := blockNodes_bound C bs i k hin n hn
+    refine ⟨nodeAt_hash_len C hC bs dd o, ?_⟩
+    have h1 := nodeAt_length_le C bs dd o
+    have h2 := psum_mono bs hb
+    have := h.small.2
+    omega
+  · rw [htree]; exact h.aligned
+  · intro j
+    rw [hbf, Bitfield.get_setRange, h.bits j]
+    by_cases hji : j = i
+    · subst hji; simp
+    · have : ¬ (i ≤ j ∧ j < i + 1) := by omega
+      simp [this, hji]
+  · intro j hj'
+    simp only [Bool.or_eq_true, beq_iff_eq] at hj'
+    rcases hj' with hj' | rfl
+    · exact h.heldLt j hj'
+    · exact hi
+  · intro j hj'
+    simp only [Bool.or_eq_true, beq_iff_eq] at hj'
+    rw [htr, htree]
+    rcases hj' with hj' | rfl
+    · exact hold _ _ (h.leaf j hj')
+    · exact hleaf
+  · intro j hj' k' hk'
+    simp only [Bool.or_eq_true, beq_iff_eq] at hj'
+    rw [hdata, File.size_write, File.byte_write]
+    have hlen : (bs.getD i []).length = sz bs i := rfl
+    by_cases hji : j = i
+    · subst hji
+      have hin' : psum bs j ≤ psum bs j + k' ∧ psum bs j + k' < psum bs j + (bs.getD j []).length := by
+        rw [hlen]; omega
+      simp only [hin', and_self, ite_true]
+      refine ⟨by rw [hlen]; have := Nat.le_max_right d.data.size (psum bs j + sz bs j); omega, ?_⟩
+      congr 1; omega
+    · have hheld : held j = true := by
+        rcases hj' with hj' | hj'
+        · exact hj'
+        · exact absurd hj' hji
+      obtain ⟨d1, d2⟩ := h.data j hheld k' hk'
+      have hout : ¬ (psum bs i ≤ psum bs j + k' ∧ psum bs j + k' < psum bs i + (bs.getD i []).length) := by
+        rw [hlen]
+        rcases Nat.lt_or_gt_of_ne hji with hlt | hgt
+        · have := psum_succ_le bs hlt; omega
+        · have := psum_succ_le bs hgt; omega
+      simp only [hout, ite_false]
+      exact ⟨by have := Nat.le_max_left d.data.size (psum bs i + (bs.getD i []).length); omega, d2⟩
+  · rw [hbf, hhd]
+    exact Core.updateContiguous_spec c.header c.bitfield ⟨false, i, 1⟩ h.contig (by simp)
+
+/-- **one honest block exchange at core level**: `verify_and_apply_proof` answers `true`, and afterwards the
+    replica holds block `i` as well — the invariant holds again -/
+theorem apply_block (C : Crypto) (hC : HashWF C) (bs : Array Bytes) (c : Core) (d : Disk) (held : Nat → Bool) (h : RepR C bs c d held)
+    (i : Nat) (hi : i < bs.size) :
+    (c.verifyAndApply C d (honestBlock C bs c d i)).result = .ok true
+      ∧ RepR C bs (c.verifyAndApply C d (honestBlock C bs c d i)).core
+          (d.applyAll (c.verifyAndApply C d (honestBlock C bs c d i)).journal) (fun j => held j || j == i) := by
+  rw [apply_block_shape C bs c d held h i hi]
+  refine ⟨rfl, ?_⟩
+  simp only []
+  rw [Journal.applyAll_append]
+  exact maybeFlush_repr C bs _ _ _ (afterBlock_repr C hC bs c d held h i hi)
+
+/-! ### first contact at core level -/
+
+/-- a replica that knows nothing yet -/
+structure FreshR (C : Crypto) (bs : Array Bytes) (c : Core) (d : Disk) : Prop where
+  empty : Sparse C bs 0 c.tree d.tree
+  roots : c.tree.roots = []
+  bytes0 : c.tree.byteLength = 0
+  mapwf : MapWF c.tree.unflushed
+  aligned : d.tree.size % 40 = 0
+  bits : ∀ i, c.bitfield.get i = false
+  contig : Core.FirstMissing c.bitfield c.header.contiguous
+  small : bs.size < 2 ^ 64 ∧ psum bs bs.size < 2 ^ 64
+
+/-- the writer's answer to "upgrade from 0 to your length" -/
+def honestUpgrade (C : Crypto) (bs : Array Bytes) (fork : Nat) (sig : Bytes) : Proof :=
+  ⟨fork, none, none, none, some ⟨0, bs.size, RefTree.roots C bs, [], sig⟩⟩
+
+/-- **first contact at core level**: the replica applies the writer's upgrade answer and then represents the
+    writer's log with no block held -/
+theorem apply_first_upgrade (C : Crypto) (hC : HashWF C) (bs : Array Bytes) (c : Core) (d : Disk) (h : FreshR C bs c d)
+    (h0 : 0 < bs.size) (sig : Bytes) (hsl : sig.length = 64)
+    (hver : C.verify c.publicKey (RefTree.signableOf C bs c.tree.fork) sig = true) :
+    (c.verifyAndApply C d (honestUpgrade C bs c.tree.fork sig)).result = .ok true
+      ∧ RepR C bs (c.verifyAndApply C d (honestUpgrade C bs c.tree.fork sig)).core
+          (d.applyAll (c.verifyAndApply C d (honestUpgrade C bs c.tree.fork sig)).journal) (fun _ => false)
+      ∧ (c.verifyAndApply C d (honestUpgrade C bs c.tree.fork sig)).core.tree.fork = c.tree.fork
+      ∧ (c.verifyAndApply C d (honestUpgrade C bs c.tree.fork sig)).core.publicKey = c.publicKey := by
+  obtain ⟨cs, h1, h2, h3, h4, h5, h6, h7, h8, h9, h10⟩ := UpgradeComplete.fresh_upgrade_accepted C bs h.small.1 h0 c.tree.fork c.publicKey sig
+    c.tree.changeset (by simp [Tree.changeset, h.roots]) (by simp [Tree.changeset, h.empty.length]) hsl hver
+  have hvv : verifyProof C c.tree d.tree (honestUpgrade C bs c.tree.fork sig) c.publicKey = .ok cs := by
+    simp [honestUpgrade, Tree.verifyProof, verifyTree, untrustedOf, noSeekOf, h1]
+  have hrn : cs.rnodes = (RefTree.roots C bs).reverse := by simpa [Tree.changeset] using h6
+  have hnodes : cs.nodes = RefTree.roots C bs := by simp [Changeset.nodes, hrn]
+  have ho1 : cs.origLength = c.tree.length := by simpa [Tree.changeset] using h8
+  have ho2 : cs.origFork = c.tree.fork := by simpa [Tree.changeset] using h9
+  have ha : cs.ancestors = c.tree.length := by simpa [Tree.changeset] using h10
+  have hcmt : c.tree.commitable cs = true := by simp [Tree.commitable, h7, ho1, ho2]
+  have hnl : ¬ (cs.ancestors < cs.origLength) := by omega
+  generalize htr : ({ c.tree with roots := cs.roots, length := cs.length, byteLength := cs.byteLength, fork := cs.fork, signature := cs.signature, unflushed := insertAll c.tree.unflushed (RefTree.roots C bs) } : Tree) = tr
+  have hcommit : c.tree.commit cs = .ok tr := by
+    rw [← htr]
+    simp only [Tree.commit, hcmt, h7, Bool.not_true, Bool.false_eq_true, ite_false, Bool.true_and, decide_eq_true_eq, hnl, ite_true, insertAll, hnodes]
+  have hds : Core.dataStep c d (honestUpgrade C bs c.tree.fork sig) cs = .ok ([], none) := by
+    simp [Core.dataStep, honestUpgrade]
+  have hp : (honestUpgrade C bs c.tree.fork sig).fork = c.tree.fork := rfl
+  -- the state before the periodic flush
+  generalize hc1 : ({ c with oplog := (Oplog.appendEntry c.oplog (Core.entryOf cs none c.header).1).1, header := (Core.entryOf cs none c.header).2, bitfield := c.bitfield, tree := tr } : Core) = c1
+  have hshape : c.verifyAndApply C d (honestUpgrade C bs c.tree.fork sig)
+      = { core := c1.maybeFlush.1, result := .ok true,
+          journal := (Oplog.appendEntry c.oplog (Core.entryOf cs none c.header).1).2 ++ c1.maybeFlush.2,
+          events := Core.appliedEvents (honestUpgrade C bs c.tree.fork sig) none } := by
+    unfold Core.verifyAndApply
+    simp only [hp, ne_eq, not_true_eq_false, ite_false, hvv, hcmt, Bool.not_true, Bool.false_eq_true, hds]
+    unfold Core.applyVerified
+    simp only [hcommit, Core.finishApply, List.nil_append, ← hc1]
+  have hj1 : ∀ op ∈ (Oplog.appendEntry c.oplog (Core.entryOf cs none c.header).1).2, op.store = .oplog := Journal.appendEntry_store _ _
+  have htree : (d.applyAll (Oplog.appendEntry c.oplog (Core.entryOf cs none c.header).1).2).tree = d.tree :=
+    LiveRefine.tree_of_applyAll _ _ (fun op hop => by rw [hj1 op hop]; decide)
+  have hc1t : c1.tree = tr := by rw [← hc1]
+  have hc1b : c1.bitfield = c.bitfield := by rw [← hc1]
+  have hc1h : c1.header.contiguous = c.header.contiguous := by
+    rw [← hc1]; simp only [Core.entryOf, h7, ite_true]
+  have hrep1 : RepR C bs c1 (d.applyAll (Oplog.appendEntry c.oplog (Core.entryOf cs none c.header).1).2) (fun _ => false) := by
+    have hcl := upgrade_commit_closed C hC bs c.tree d.tree h.empty tr (by rw [← htr]) (by rw [← htr]; exact h3)
+    have hsum : UpgradeBytes.SumOK cs := by
+      apply UpgradeBytes.verifyUpgrade_sum C _ _ _ _ _ _ _ h1
+      simp [UpgradeBytes.SumOK, Tree.changeset, h.roots, h.bytes0]
+    have hbytes : cs.byteLength = psum bs bs.size := by
+      rw [hsum, h2, UpgradeBytes.roots_eq, Reopen.refRoots_sum, LiveRefine.psum_total]
+    refine ⟨(by rw [hc1t, htree]; exact hcl), (by rw [hc1t, ← htr]; exact h2), (by rw [hc1t, ← htr]; exact hbytes), ?_, (by rw [htree]; exact h.aligned),
+      (by intro i; rw [hc1b]; exact h.bits i), (fun i hi => by cases hi), (fun i hi => by cases hi), (fun i hi => by cases hi),
+      (by rw [hc1b, hc1h]; exact h.contig), h.small⟩
+    rw [hc1t, ← htr]
+    apply mapWF_insertAll _ _ h.mapwf
+    intro n hn
+    have hroots : RefTree.roots C bs = (rootsStack bs.size).reverse.map (fun p => nodeAt C bs p.1 p.2) := by simp [RefTree.roots]
+    rw [hroots] at hn
+    obtain ⟨p, hp', rfl⟩ := List.mem_map.mp hn
+    have hb := rootsStack_bound bs.size p (List.mem_reverse.mp hp')
+    refine ⟨nodeAt_hash_len C hC bs p.1 p.2, ?_⟩
+    have a1 := nodeAt_length_le C bs p.1 p.2
+    have a2 := psum_mono bs hb
+    have := h.small.2
+    omega
+  rw [hshape]
+  refine ⟨rfl, ?_, ?_, ?_⟩
+  · simp only []
+    rw [Journal.applyAll_append]
+    exact maybeFlush_repr C bs _ _ _ hrep1
+  · simp only []
+    rw [LiveRefine.maybeFlush_eq]
+    split
+    · simp only [Core.flushAll, Tree.flush]; rw [hc1t, ← htr]; exact h4
+    · show c1.tree.fork = _; rw [hc1t, ← htr]; exact h4
+  · simp only []
+    rw [LiveRefine.maybeFlush_eq]
+    split
+    · simp only [Core.flushAll]; rw [← hc1]
+    · show c1.publicKey = _; rw [← hc1]
+
+/-! ### any order of block requests -/
+
+/-- the replica after fetching the blocks `is`, in that order, each with the writer's honest answer -/
+def fetch (C : Crypto) (bs : Array Bytes) : Core × Disk → List Nat → Core × Disk
+  | s, [] => s
+  | (c, d), i :: is =>
+    fetch C bs ((c.verifyAndApply C d (honestBlock C bs c d i)).core, d.applyAll (c.verifyAndApply C d (honestBlock C bs c d i)).journal) is
+
+/-- the answers of `verify_and_apply_proof` along the way -/
+def fetchResults (C : Crypto) (bs : Array Bytes) : Core × Disk → List Nat → List (R Bool)
+  | _, [] => []
+  | (c, d), i :: is =>
+    (c.verifyAndApply C d (honestBlock C bs c d i)).result ::
+      fetchResults C bs ((c.verifyAndApply C d (honestBlock C bs c d i)).core, d.applyAll (c.verifyAndApply C d (honestBlock C bs c d i)).journal) is
+
+theorem fetch_repr (C : Crypto) (hC : HashWF C) (bs : Array Bytes) : ∀ (is : List Nat) (c : Core) (d : Disk) (held : Nat → Bool),
+    RepR C bs c d held → (∀ i ∈ is, i < bs.size) →
+      RepR C bs (fetch C bs (c, d) is).1 (fetch C bs (c, d) is).2 (fun j => held j || is.contains j)
+      ∧ fetchResults C bs (c, d) is = is.map (fun _ => .ok true) := by
+  intro is
+  induction is with
+  | nil =>
+    intro c d held h _
+    refine ⟨?_, rfl⟩
+    have : (fun j => held j || ([] : List Nat).contains j) = held := by funext j; simp
+    rw [this]; exact h
+  | cons i is ih =>
+    intro c d held h hlt
+    obtain ⟨r1, r2⟩ := apply_block C hC bs c d held h i (hlt i (by simp))
+    obtain ⟨r3, r4⟩ := ih _ _ _ r2 (fun j hj => hlt j (by simp [hj]))
+    refine ⟨?_, by simp only [fetchResults, r1, r4, List.map_cons]⟩
+    have : (fun j => held j || (i :: is).contains j) = (fun j => (held j || j == i) || is.contains j) := by
+      funext j
+      simp only [List.contains_cons, Bool.or_assoc]
+    rw [this]
+    exact r3
 
 end HC.Replica
